@@ -154,6 +154,31 @@ def _case_h1_slow_close(rng, tier, n):
             "sched": {"seed": rng.randrange(1 << 30)}}
 
 
+def _case_h1_slow_halfclosed(rng, tier, n):
+    """A client that has finished sending (it half-closed after its request) and takes a large response slowly but steadily - one part
+    of the body is far larger than what it takes within keep_alive_timeout.  It is making progress all the time: the response it asked
+    for is delivered whole.  (A client that takes nothing for that long is C07/C08's subject.)"""
+    T = 1.0
+    tag = n * 10
+    req = G.gen_request(rng, tag, "1.1", tier, body_sizes=[0], methods=["GET"])
+    resp = gen_resp(rng, tag, tier, False, "GET")
+    resp["sizes"] = [rng.choice([200000, 400000])] + ([rng.choice([10, 70000])] if rng.random() < 0.5 else [])
+    resp["total"] = sum(resp["sizes"])
+    resp["headers"] = [h for h in resp["headers"] if h[0] != b"content-length"]
+    resp["cl"] = False
+    resp["pause_k"] = 0
+    be = rng.choice(["asyncio", "trio"])  # (asyncio: the transport buffers; trio: send_all() itself waits for the client)
+    client = [["pause"], ["feed", G.serialize_h1(req)], ["settle"], ["eof"]]
+    for _ in range(resp["total"] // 60000 + 6):  # (a take ends at the end of the write that is in progress)
+        client += [["advance", rng.choice([0.3, 0.45])], ["take", 70000]]
+    client += [["resume"], ["settle"]]
+    return {"family": "h1.1.1.slow-reader-half-closed", "backends": [be], "config": {"keep_alive_timeout": T},
+            "conn": {"write_buffer": 1 << 22} if be == "asyncio" else {},
+            "apps": {"default": [["recv_until_end"], ["respond", 200, [], b"d"]], "by_tag": {str(tag): resp_script(resp)}},
+            "client": client, "truth": {"requests": [req], "responses": [resp], "proto": "h1"},
+            "sched": {"seed": rng.randrange(1 << 30)}}
+
+
 def _case_h2(rng, tier, n, h2c=False):
     nreq = 1 if h2c else rng.choice([1, 2, 3, 4])
     tls = (not h2c) and rng.random() < 0.5
@@ -282,6 +307,8 @@ def _gen(rng, tier):
             yield _case_h2_client_goaway(rng, tier, i)
         elif i % 100 == 57:
             yield _case_h1_slow_close(rng, tier, i)
+        elif i % 50 == 33:
+            yield _case_h1_slow_halfclosed(rng, tier, i)
         elif r < 0.45:
             yield _case_h1(rng, tier, i)
         elif r < 0.93:
